@@ -68,9 +68,9 @@ def saved_loaded_keys(prog: Program, c: ClassInfo) -> Tuple[Set[object], Set[obj
     loaded: Set[object] = set()
     for k in c.mro_classes():
         if 'save_instance_state' in k.methods:
-            saved |= set(saved_keys_of(prog, k.methods['save_instance_state']))
+            saved |= set(saved_keys_of(prog, prog.view(k.methods['save_instance_state'])))
         if 'load_instance_state' in k.methods:
-            loaded |= set(loaded_keys_of(prog, k.methods['load_instance_state']))
+            loaded |= set(loaded_keys_of(prog, prog.view(k.methods['load_instance_state'])))
     return saved, loaded
 
 
